@@ -1,14 +1,14 @@
 #!/bin/bash
-# Confirms for every /verif/seeded/*/patch*.diff that it applies, compiles and that the repository's own
-# test suite still passes (in a scratch worktree outside /repo and /verif); result in tests_patchN.txt.
+# Confirms for every /verif/seeded/*/patch.diff that it applies, compiles and that the repository's own
+# test suite still passes (in a scratch worktree outside /repo and /verif); result in tests.txt.
 W=/tmp/seedverify
 if [ ! -d $W ]; then git -C /repo worktree add --detach $W HEAD >/dev/null 2>&1; fi
 cd $W || exit 2
 git checkout -q --detach $(git -C /repo rev-parse HEAD) 2>/dev/null
 export CARGO_TARGET_DIR=$W/target TMPDIR=$W/tmp CARGO_NET_OFFLINE=true
 mkdir -p $TMPDIR
-for p in /verif/seeded/*/patch*.diff; do
-  r=$(dirname $p)/tests_$(basename $p .diff).txt
+for p in /verif/seeded/*/patch.diff; do
+  r=$(dirname $p)/tests.txt
   [ -f $r ] && continue
   git checkout -q -- . ; git clean -fdq src
   if ! git apply $p 2>/dev/null; then echo "APPLY-FAILED" > $r; continue; fi
